@@ -2,6 +2,7 @@ package kit
 
 import (
 	"fmt"
+	"reflect"
 
 	"pipelined.dev/signal"
 )
@@ -48,6 +49,44 @@ type Hdr struct {
 
 func HdrOf[T signal.SignalTypes](b *signal.Buffer[T]) Hdr {
 	return Hdr{b.Len(), b.Cap(), b.Length(), b.Capacity(), b.Channels(), int(b.BitDepth())}
+}
+
+// RawLenCap reads the length and capacity of the buffer's sample storage
+// directly (by reflection on the unexported slice field), without going through
+// the library's own accessors. ok is false when the storage cannot be found
+// (the layout of Buffer changed); callers then fall back on the accessors.
+// Checks whose property speaks of total length or capacity use it so that an
+// accessor that misreports cannot vouch for itself.
+func RawLenCap(buf any) (l, c int, ok bool) {
+	v := reflect.ValueOf(buf)
+	if v.Kind() != reflect.Pointer || v.IsNil() || v.Elem().Kind() != reflect.Struct {
+		return 0, 0, false
+	}
+	st := v.Elem()
+	found := -1
+	for i := 0; i < st.NumField(); i++ {
+		if st.Field(i).Kind() == reflect.Slice {
+			if found >= 0 {
+				return 0, 0, false // more than one slice field: ambiguous
+			}
+			found = i
+		}
+	}
+	if found < 0 {
+		return 0, 0, false
+	}
+	f := st.Field(found)
+	return f.Len(), f.Cap(), true
+}
+
+// RawMismatch compares Len() and Cap() as reported with the storage itself; ""
+// when they agree or the storage cannot be inspected.
+func RawMismatch(buf any, h Hdr) string {
+	l, c, ok := RawLenCap(buf)
+	if !ok || (l == h.Len && c == h.Cap) {
+		return ""
+	}
+	return fmt.Sprintf("Len()/Cap() report %d/%d, the sample storage has length %d and capacity %d", h.Len, h.Cap, l, c)
 }
 
 // ModelHdr is the header a window of n samples / k capacity samples over C
@@ -146,6 +185,13 @@ func RootWindow[T signal.SignalTypes](C, K, a, b, partial, fix int) (root, w *si
 	for p := 0; p < C*K; p++ {
 		fillVia.SetSample(p, T(Sentinel(p)))
 	}
+	defer func() {
+		// other windows of the same parent are cut while the window under test is alive:
+		// every Slice call must hand out a header of its own
+		_ = root.Slice(0, K/2)
+		_ = root.Slice(K/2, K)
+		_ = root.Slice(K, K)
+	}()
 	if n := C*(b-a) + partial; fix >= 4 && n >= 2 {
 		n1 := fix - 3
 		if n1 > n-1 {
